@@ -84,6 +84,63 @@ func (c *Ctx) label(fn *ssa.Function) string {
 	return fn.Name()
 }
 
+// implementersOf: label = "I.m" for an interface type I declared in this package: the methods m of
+// every named non-interface type of the package (value or pointer receiver) that implements I.
+func (c *Ctx) implementersOf(label string) []*ssa.Function {
+	i := strings.LastIndex(label, ".")
+	if i <= 0 || strings.ContainsAny(label, "(:$") {
+		return nil
+	}
+	obj := c.tpkg.Scope().Lookup(label[:i])
+	tn, ok := obj.(*types.TypeName)
+	if !ok {
+		return nil
+	}
+	it, ok := tn.Type().Underlying().(*types.Interface)
+	if !ok {
+		return nil
+	}
+	var out []*ssa.Function
+	names := c.tpkg.Scope().Names()
+	for _, n := range names {
+		o, ok := c.tpkg.Scope().Lookup(n).(*types.TypeName)
+		if !ok || o.IsAlias() {
+			continue
+		}
+		nt, ok := o.Type().(*types.Named)
+		if !ok || nt.TypeParams().Len() > 0 {
+			continue
+		}
+		if _, isI := nt.Underlying().(*types.Interface); isI {
+			continue
+		}
+		for _, rt := range []types.Type{nt, types.NewPointer(nt)} {
+			if !types.Implements(rt, it) {
+				continue
+			}
+			sel := c.prog.MethodSets.MethodSet(rt).Lookup(c.tpkg, label[i+1:])
+			if sel == nil {
+				continue
+			}
+			fn := c.prog.MethodValue(sel)
+			if fn == nil || fn.Synthetic != "" || len(fn.Blocks) == 0 {
+				continue // promoted / wrapper methods: the declared method is reached through its own receiver type
+			}
+			dup := false
+			for _, f := range out {
+				if f == fn {
+					dup = true
+				}
+			}
+			if !dup {
+				out = append(out, fn)
+			}
+			break
+		}
+	}
+	return out
+}
+
 // calleeLabel names the target of a call for contract lookup and `at call` clauses.
 func (c *Ctx) calleeLabel(cc *ssa.CallCommon) string {
 	if cc.IsInvoke() {
